@@ -158,10 +158,13 @@ fn expected_string_part(pre: &[String], ops_in_processing_order: &[(bool, String
     ops_in_processing_order.iter().map(|(d, s)| one(*d, s, &mut table)).collect()
 }
 
-fn c09_script(script: &[(bool, usize)], st: &mut Stats, strings: &[String], only: &Option<String>) {
+fn c09_script(script: &[(bool, usize)], st: &mut Stats, strings: &[String], only: &Option<String>, deep_only: bool) {
     let label: String = script.iter().map(|(d, i)| format!("{}{}", if *d { 'D' } else { 'P' }, i)).collect::<Vec<_>>().join("");
     let ops: Vec<(bool, String)> = script.iter().map(|(d, i)| (*d, strings[*i].clone())).collect();
     for p in PLACEMENTS {
+        if deep_only && !matches!(p, Placement::Flat | Placement::EvolvedRemovedNames) {
+            continue;
+        }
         let key = format!("c09:{label}/{p:?}");
         if let Some(k) = only {
             if *k != key {
@@ -338,11 +341,13 @@ pub fn run_c09(tier: &str, only: Option<String>) -> i32 {
     let mut run = Run::new("C09", tier, "model_checking", only);
     let thorough = run.thorough();
     let max_len = if thorough { 6 } else { 5 };
+    // thorough: length 7 in the two placements where stream order and header names matter most
+    let deep_len = if thorough { 7 } else { 0 };
     let strings = alphabet();
     // work items: scripts grouped by their first op and length
     let mut items = Vec::new();
     items.push(C09Item { first: usize::MAX, len: 0 });
-    for len in 1..=max_len {
+    for len in 1..=std::cmp::max(max_len, deep_len) {
         for first in 0..8 {
             items.push(C09Item { first, len });
         }
@@ -352,14 +357,14 @@ pub fn run_c09(tier: &str, only: Option<String>) -> i32 {
         println!("  hang in scripts of length {} starting with op {}", it.len, it.first);
     }, &|it: &C09Item, st: &mut Stats| {
         if it.len == 0 {
-            c09_script(&[], st, &strings, &sel);
+            c09_script(&[], st, &strings, &sel, false);
             return;
         }
         let mut idx = vec![0usize; it.len];
         idx[0] = it.first;
         loop {
             let script: Vec<(bool, usize)> = idx.iter().map(|&o| (o >= 4, o % 4)).collect();
-            c09_script(&script, st, &strings, &sel);
+            c09_script(&script, st, &strings, &sel, it.len > max_len);
             // odometer over positions 1..
             let mut i = it.len;
             loop {
@@ -800,11 +805,17 @@ pub fn run_c10(tier: &str, only: Option<String>) -> i32 {
             items.push(C10Item { n, first });
         }
     }
+    if thorough {
+        // five nodes with out-degree <= 1 (7 776 graphs): longer cycles and chains
+        for first in 0..6 {
+            items.push(C10Item { n: 5, first });
+        }
+    }
     let sel = run.only.clone();
     let stats = par_items(&items, Some(bridge::rt::hang_limit()), &|it: &C10Item| {
         println!("  fingerprint: C10 encoding or decoding does not terminate (graphs with {} nodes, root edge list #{})", it.n, it.first);
     }, &|it: &C10Item, st: &mut Stats| {
-        let lists = edge_lists(it.n);
+        let lists: Vec<Vec<usize>> = if it.n == 5 { edge_lists(5).into_iter().filter(|l| l.len() <= 1).collect() } else { edge_lists(it.n) };
         let mut idx = vec![0usize; it.n];
         idx[0] = it.first;
         loop {
